@@ -35,6 +35,7 @@ def tags_defined(node):
 def inst_tags(inst):
     tags = set()
     q = inst["q"]; args = inst.get("args", {})
+    if "mode" not in q: return tags          # raw documents (C10 / C14 families) carry no AST
     for node, under_opt, in_fold, path in scopes(q):
         if node["mode"] == "fold" and "count" in node and node["count"]["filters"] and under_opt:
             tags.add("fold_count_filter_under_optional")
